@@ -56,6 +56,7 @@ def install(M):
         "core::slice::<impl [T]>::last_mut": lambda e, st, a: X.sl_ref(e, st, a, "last"),
         "core::slice::<impl [T]>::first_mut": lambda e, st, a: X.sl_ref(e, st, a, "first"),
         "core::slice::<impl [T]>::to_vec": X.sl_to_vec,
+        "std::slice::<impl [T]>::to_vec": X.sl_to_vec,
         "std::vec::Vec::<T, A>::as_slice": M.m_identity,
         "std::vec::Vec::<T, A>::as_mut_slice": M.m_identity,
         "core::array::<impl [T; N]>::as_slice": M.m_identity,
